@@ -40,6 +40,8 @@ def gen_dict(rng):
             base = rng.choice(entries)
             k = rng.randint(1, 2)
             path = list(base[0]) + [frozenset(rng.sample(LETTERS, k))]
+            if rng.random() < 0.25:
+                path[-1] = frozenset([rng.choice(['.', ','])])      # a punctuation key as follow-up (smart space full erases its space)
         elif r < 0.65:
             # a follow-up chain whose first chord has no output of its own (`r df<TAB>recipient`): the first keys are typed as
             # they are and erased when the chain completes
@@ -101,7 +103,7 @@ def make_case(rng, i, tier):
     rest = 't%d' % (max(wait, deadline) + 20)
     in_followup_context = False
     for s in range(rng.randint(1, 4)):
-        kind = rng.choice(['chord', 'chord', 'chord', 'passthrough', 'chord-then-type', 'slow-chord', 'late-chord', 'extend-late'])
+        kind = rng.choice(['chord', 'chord', 'chord', 'passthrough', 'chord-then-type', 'slow-chord', 'late-chord', 'extend-late', 'partial-release'])
         # a completed chord that has followups keeps its followup dictionary prioritized until other input or
         # 10000 quiet ticks clear it: start the next scenario from a state where that context is gone
         h.append('t10100' if in_followup_context else rest)
@@ -134,6 +136,18 @@ def make_case(rng, i, tier):
                 h.append('M')
                 continue
         sub = None
+        partial = False
+        if kind == 'partial-release':
+            # within one hold: the shorter chord completed, one of its keys let go, the extra keys of the longer chord added, the key
+            # pressed again: the longer chord supersedes the shorter one
+            cands = [(p2, w2, q[0]) for p2, w2 in entries if len(p2) == 1 for q, _ in entries
+                     if len(q) == 1 and q[0] < p2[0] and len(q[0]) >= 2]
+            if not cands:
+                kind = 'chord'
+            else:
+                p2, w, sub = rng.choice(cands)
+                path = p2
+                partial = True
         if kind == 'extend-late':
             # a chord that extends another chord, the shorter one completed first (it activates: a chord did activate within the
             # deadline), the remaining keys added later than one deadline after the very first press but sooner than one deadline
@@ -160,11 +174,20 @@ def make_case(rng, i, tier):
                 rng.shuffle(first)
                 later = sorted(ks - sub)
                 rng.shuffle(later)
-                for k in first[:-1]:
-                    h += ['d%d' % CODE[k], 't20']
-                h += ['d%d' % CODE[first[-1]], 't%d' % (deadline - 12)]
-                for k in later:
-                    h += ['d%d' % CODE[k], 't1']
+                if partial:
+                    for k in first:
+                        h += ['d%d' % CODE[k], 't2']
+                    back = rng.choice(first)
+                    h += ['u%d' % CODE[back], 't2']
+                    for k in later:
+                        h += ['d%d' % CODE[k], 't2']
+                    h += ['d%d' % CODE[back], 't2']
+                else:
+                    for k in first[:-1]:
+                        h += ['d%d' % CODE[k], 't20']
+                    h += ['d%d' % CODE[first[-1]], 't%d' % (deadline - 12)]
+                    for k in later:
+                        h += ['d%d' % CODE[k], 't1']
                 order = []
             for k in order:
                 h += ['d%d' % CODE[k], 't%d' % (rng.randint(max(1, gap_max // 2), gap_max) if kind == 'slow-chord' else rng.randint(1, gap_max))]
